@@ -482,6 +482,32 @@ func init() {
 			}
 			pairs = append(pairs, [2]int{j, i}, [2]int{i, j})
 		}
+		// the corner of the region where a Bradford cone response is small or negative, and whites whose
+		// luminance is not 1: white-to-white, the constructors' agreement and the bit-exact model still apply
+		for k, e := range []ciexyy.Color{xy(0.5, 0.5), xy(0.495, 0.495), xy(0.49, 0.5), xy(0.5, 0.49), xy(0.48, 0.499), xy(0.2, 0.2), xy(0.5, 0.2), xy(0.2, 0.5)} {
+			wps = append(wps, e)
+			names = append(names, "corner")
+			i := len(wps) - 1
+			pairs = append(pairs, [2]int{i, k % len(named)}, [2]int{k % len(named), i}, [2]int{i, i})
+			if k > 0 {
+				pairs = append(pairs, [2]int{i, i - 1})
+			}
+		}
+		for k := 0; k < 40; k++ {
+			w := wps[rng.Intn(len(named)+n)]
+			w.YY = []float32{0.5, 0.8, 2, 0.18, 1.25}[k%5]
+			if k%3 == 0 {
+				w.YY = float32(0.1 + 2*rng.Float64())
+			}
+			wps = append(wps, w)
+			names = append(names, "luminance")
+			i := len(wps) - 1
+			pairs = append(pairs, [2]int{i, rng.Intn(len(named))}, [2]int{rng.Intn(len(named)), i}, [2]int{i, i - 1})
+		}
+		minResp := func(w ciexyy.Color) float64 {
+			r := bf.apply(xyzRef(w))
+			return math.Min(math.Abs(r[0]), math.Min(math.Abs(r[1]), math.Abs(r[2])))
+		}
 		apply64 := func(m matrix.Matrix3, v [3]float64) [3]float64 { return fromCols(m).apply(v) }
 		for _, p := range pairs {
 			a, b := wps[p[0]], wps[p[1]]
@@ -494,7 +520,8 @@ func init() {
 				c.res.fail(Failure{Class: "C12:constructors", Desc: "the xyY and XYZ constructors give different adaptations", Input: in, Got: fmt.Sprint(M), Want: fmt.Sprint(matrix.Matrix3(adz))})
 			}
 			ref := refAdapt(a, b)
-			if d := maxDiff(fromCols(M), ref); d > 1e-6*math.Max(1, ref.norm()) {
+			wellConditioned := minResp(a) >= 0.1 && minResp(b) >= 0.1
+			if d := maxDiff(fromCols(M), ref); wellConditioned && d > 1e-6*math.Max(1, ref.norm()) {
 				c.res.fail(Failure{Class: "C12:bradford", Desc: "adaptation matrix differs from the independent float64 Bradford matrix", Input: in, Got: fmt.Sprint(fromCols(M)), Want: fmt.Sprint(ref)})
 			}
 			// white maps to white
@@ -513,7 +540,10 @@ func init() {
 					c.res.fail(Failure{Class: "C12:identity", Desc: "A->A is not the identity", Input: in, Got: fmt.Sprint(fromCols(M)), Want: "identity"})
 				}
 			}
-			third := wps[rng.Intn(len(wps))]
+			third := wps[rng.Intn(len(named)+n)]
+			if !wellConditioned {
+				third = a
+			}
 			bc := ciexyz.AdaptBetweenXYYWhitePoints(b, third)
 			ac := ciexyz.AdaptBetweenXYYWhitePoints(a, third)
 			if d := maxDiff(fromCols(matrix.Matrix3(bc)).mul(fromCols(M)), fromCols(matrix.Matrix3(ac))); d > 1e-6 {
